@@ -991,6 +991,28 @@ func genC06PEM(c *Ctx) {
 	emit("corpus", []pemItem{{kind: 1, text: []byte("Bag Attributes\n    friendlyName: x\n")}, c06PEMBlockItem(cert, false), {kind: 1, text: []byte("subject=/CN=x\n\n")}, c06PEMBlockItem(key, false)}, 1)
 	emit("corpus", []pemItem{c06PEMBlockItem(cert, false), {kind: 2, text: pgp}, c06PEMBlockItem(key, false)}, 1)
 	emit("corpus", []pemItem{c06PEMBlockItem(unknown, false)}, 1)
+	// a complete, valid OpenPGP key block among the blocks of a bundle, with and without text before the first block
+	// (a route that finds the armor anywhere in the text must not take the file away from the bundle reader)
+	pgpKey := append(bytes.TrimRight(armorPGP(rawPGPKey(nil)), "\n"), '\n')
+	for _, lead := range []string{"", "\n", "# exported by a tool\n", "Bag Attributes\n    friendlyName: x\n", "\r\n"} {
+		var pre []pemItem
+		if lead != "" {
+			pre = []pemItem{{kind: 1, text: []byte(lead)}}
+		}
+		emit("pgp-key-inside", append(append([]pemItem{}, pre...), c06PEMBlockItem(cert, false), pemItem{kind: 2, text: pgpKey}, c06PEMBlockItem(key, false)), 1)
+		if lead != "" {
+			// (a file that BEGINS with the armor of a key is an OpenPGP key file by its signature: C07, not a bundle)
+			emit("pgp-key-inside", append(append([]pemItem{}, pre...), pemItem{kind: 2, text: pgpKey}, c06PEMBlockItem(cert, false), c06PEMBlockItem(key, false)), 1)
+		}
+		emit("pgp-key-inside", append(append([]pemItem{}, pre...), c06PEMBlockItem(cert, false), c06PEMBlockItem(key, false), pemItem{kind: 2, text: pgpKey}), 1)
+	}
+	// a byte order mark (and other invisible prefixes without a line end) directly before the first BEGIN line
+	for _, lead := range []string{"\xef\xbb\xbf", "\xef\xbb\xbf\n", " ", "\t", "x", "\xc2\xa0", "\x00"} {
+		pre := pemItem{kind: 1, text: []byte(lead)}
+		emit("prefix-no-newline", []pemItem{pre, c06PEMBlockItem(cert, false)}, 1)
+		emit("prefix-no-newline", []pemItem{pre, c06PEMBlockItem(cert, false), c06PEMBlockItem(key, false)}, 1)
+		emit("prefix-no-newline", []pemItem{pre, c06PEMBlockItem(cert, true), c06PEMBlockItem(unknown, true), c06PEMBlockItem(key, true)}, 1)
+	}
 	emit("broken", []pemItem{c06PEMBlockItem(cert, false), {kind: 3, text: c06BreakBody(c.R, key.text())}, c06PEMBlockItem(key, false)}, 1)
 	emit("broken", []pemItem{{kind: 3, text: c06BreakBody(c.R, cert.text())}, c06PEMBlockItem(key, false)}, 1)
 	emit("broken", []pemItem{c06PEMBlockItem(key, false), {kind: 3, text: c06BreakBody(c.R, cert.text())}}, 1)
